@@ -4,7 +4,7 @@ CONSTANTS
   Late = {}
   NReq = 1
   Interrupts = FALSE
-  FuseFdEdge = FALSE
+  Mut = "none"
   UmountWaits = TRUE
 INVARIANTS TypeOK DeliveredOnce BufferIsRequest ExitWins NoneJustified NoLostWake NoLostReadiness ResultsAllowed NothingLost
 PROPERTIES WakeWorks UmountWorks Termination
